@@ -561,6 +561,13 @@ def verify_frame(fr, tier="quick"):
         if drecs:
             d["witness"] = drecs[:8]
         res.obligations.append(d)
+        if fr.globals_unchanged:
+            grecs = ["%s: %s:%d %s   [reached via %s]" % (g[0][7:], g[1], g[2], g[3], g[4]) for g in r["global_writes"] if len(g) > 5 and g[5]]
+            d = {"name": "%s#frame/objects_taken_from_module_level_state_unchanged" % fr.target, "instance": 0, "kind": "frame", "line": r["line"], "text": "",
+                 "status": "refuted" if grecs else "proved", "backend": "frames", "seconds": round(dt / n, 4)}
+            if grecs:
+                d["witness"] = grecs[:8]
+            res.obligations.append(d)
         res.notes.append("functions analysed (callees inlined): %d" % len(r["functions"]))
     except KeyError as e:
         res.error, res.error_kind = "frame target not found: %s" % e, "subset"
